@@ -965,6 +965,8 @@ def once_get_or_init(it, args, callee):
 @pattern(r'^once_cell::sync::OnceCell::<.*>::get$')
 def once_get(it, args, callee):
     r = args[0]
+    if it.sched is not None:
+        it.sched.yield_point(it, 'once-get')
     o = rd(r)
     if o.state == 2:
         return Some(Ref(r.cell, r.path + (('oc',),)))
@@ -1729,3 +1731,19 @@ Interp.CONSTS['rust_decimal::Decimal::MIN'] = Dec(-MAX96, 0)
 for _k in list(Interp.CONSTS):
     if _k.startswith('rust_decimal::'):
         Interp.CONSTS[_k[len('rust_decimal::'):]] = Interp.CONSTS[_k]
+
+
+@pattern(r'^once_cell::sync::OnceCell::<.*>::(set|try_insert)$')
+def once_set(it, args, callee):
+    r, v = args
+    if it.sched is not None:
+        it.sched.yield_point(it, 'once-set')
+    o = rd(r)
+    if o.state == 2:
+        return Err(v)
+    if o.state == 1:
+        raise Unsupported('OnceCell::set while an initialiser is running')
+    wr(r, OnceV(2, v, None))
+    if it.sched is not None:
+        it.sched.wake(lambda on: on is not None and on[0] == 'once' and on[1] == id(r.cell))
+    return Ok(UNIT)
